@@ -1,10 +1,10 @@
 SPECIFICATION Spec
-CONSTANT N = 3
+CONSTANT N = 2
 CONSTANT MaxDeg = 2
 CONSTANT StubCap = 4
-CONSTANT Configs <- CustomConfigs
-CONSTANT MaxCalls = 1
-CONSTANT PinnedLen2 = TRUE
+CONSTANT Configs <- AllConfigs
+CONSTANT MaxCalls = 2
+CONSTANT PinnedLen2 = FALSE
 INVARIANT C01_Count
 INVARIANT C01_Slots
 INVARIANT C01_Range
